@@ -1,17 +1,250 @@
 package main
 
 import (
+	"encoding/json"
+	"flag"
 	"fmt"
-	"golang.org/x/tools/go/packages"
+	"os"
+	"path/filepath"
+	"sort"
+	"strconv"
+	"strings"
+	"time"
+
 	"golang.org/x/tools/go/ssa"
-	"golang.org/x/tools/go/ssa/ssautil"
 )
 
-func main() {
-	cfg := &packages.Config{Mode: packages.LoadAllSyntax, Dir: "/repo", BuildFlags: []string{"-tags=verif"}}
-	pkgs, err := packages.Load(cfg, "./api/graphql/connections")
-	if err != nil { panic(err) }
-	prog, spkgs := ssautil.AllPackages(pkgs, ssa.GlobalDebug|ssa.InstantiateGenerics*0)
-	prog.Build()
-	fmt.Println(len(spkgs))
+const verifDir = "/verif"
+
+var loadPatterns = []string{
+	"./api/...", "./bridge/core/...", "./bridge/gitlab/...", "./cache/...", "./commands/...", "./entities/...", "./entity/...",
+	"./query/...", "./repository/...", "./util/...",
 }
+
+type funcResult struct {
+	Key    string
+	Obls   []*Obligation
+	Errs   []string
+	Warns  []string
+	Notes  []string
+	Loops  int
+	Blocks int
+}
+
+func verifyFunc(prog *Program, key string, fc *FuncContract) *funcResult {
+	res := &funcResult{Key: key}
+	fn := prog.Funcs[key]
+	if fn == nil {
+		res.Errs = append(res.Errs, "contract-binding: no function "+key+" in the current tree")
+		return res
+	}
+	tr := TranslateFunc(prog, fn, fc)
+	res.Obls = tr.obls
+	res.Errs = tr.errs
+	res.Warns = tr.warns
+	res.Notes = sortedKeys(tr.assumed)
+	res.Loops = len(tr.loopList)
+	for _, li := range tr.loopList {
+		res.Notes = append(res.Notes, fmt.Sprintf("loop %d: head b%d at %s", li.ord, li.head, prog.SSA.Fset.Position(li.minPos)))
+	}
+	res.Blocks = len(fn.Blocks)
+	// loop specs that do not bind to a loop
+	for ord := range fc.Loops {
+		if ord < 1 || ord > len(tr.loopList) {
+			res.Errs = append(res.Errs, fmt.Sprintf("contract-binding: %s has no loop %d (it has %d)", key, ord, len(tr.loopList)))
+		}
+	}
+	return res
+}
+
+func isIfaceMethodKey(prog *Program, key string) bool {
+	// pkgpath.Type.Method where Type is an interface
+	i := strings.LastIndex(key, ".")
+	if i < 0 {
+		return false
+	}
+	rest := key[:i]
+	j := strings.LastIndex(rest, ".")
+	if j < 0 {
+		return false
+	}
+	pk, ok := prog.ByPath[rest[:j]]
+	if !ok {
+		return false
+	}
+	obj := pk.Types.Scope().Lookup(rest[j+1:])
+	if obj == nil {
+		return false
+	}
+	_, isIface := obj.Type().Underlying().(interface{ NumEmbeddeds() int })
+	return isIface
+}
+
+type KnownFinding struct {
+	Property   string `json:"property"`
+	Obligation string `json:"obligation"`
+	Witness    string `json:"witness"`
+	Status     string `json:"status"` // known | fixed
+	Commit     string `json:"commit,omitempty"`
+	What       string `json:"what"`
+}
+
+func loadKnown() []KnownFinding {
+	var kf struct {
+		Findings []KnownFinding `json:"findings"`
+	}
+	data, err := os.ReadFile(filepath.Join(verifDir, "known_findings.json"))
+	if err != nil {
+		return nil
+	}
+	json.Unmarshal(data, &kf)
+	return kf.Findings
+}
+
+func main() {
+	if len(os.Args) < 2 {
+		fmt.Println("usage: gbv check <prop> [--tier quick|thorough] | func <key> | list")
+		os.Exit(2)
+	}
+	cmd := os.Args[1]
+	fs := flag.NewFlagSet(cmd, flag.ExitOnError)
+	tier := fs.String("tier", "quick", "quick|thorough")
+	repo := fs.String("repo", "/repo", "repository directory")
+	dump := fs.Bool("dump", false, "keep/dump SMT files")
+	timeout := fs.Int("timeout", 0, "per-query timeout in seconds")
+	verbose := fs.Bool("v", false, "verbose")
+	var pos []string
+	args := os.Args[2:]
+	for len(args) > 0 && !strings.HasPrefix(args[0], "-") {
+		pos = append(pos, args[0])
+		args = args[1:]
+	}
+	fs.Parse(args)
+	pos = append(pos, fs.Args()...)
+	if t := os.Getenv("VERIF_TIER"); t != "" && cmd == "check" {
+		*tier = t
+	}
+	seed := 0
+	if s := os.Getenv("VERIF_SEED"); s != "" {
+		seed, _ = strconv.Atoi(s)
+	}
+	start := time.Now()
+	prog, err := LoadProgram(*repo, loadPatterns)
+	if err != nil {
+		fmt.Fprintln(os.Stderr, "load error:", err)
+		if cmd == "check" && len(pos) > 0 {
+			// the tree does not build: report as a violation of the binding obligation
+			writeLoadFailure(pos[0], *tier, seed, err, time.Since(start).Seconds())
+			os.Exit(1)
+		}
+		os.Exit(2)
+	}
+	for _, f := range contractFilesExternal() {
+		prog.CS.LoadFile(f, "", true)
+	}
+	if len(prog.CS.Errors) > 0 {
+		for _, e := range prog.CS.Errors {
+			fmt.Fprintln(os.Stderr, "contract error:", e)
+		}
+		if cmd != "check" {
+			os.Exit(2)
+		}
+	}
+	loadS := time.Since(start).Seconds()
+	to := *timeout
+	if to == 0 {
+		to = 10
+		if *tier == "thorough" {
+			to = 60
+		}
+	}
+	switch cmd {
+	case "list":
+		for _, k := range sortedKeys(prog.CS.Funcs) {
+			fc := prog.CS.Funcs[k]
+			fmt.Printf("%s props=%v trusted=%v external=%v\n", k, fc.Props, fc.Trusted, fc.External)
+		}
+	case "func":
+		if len(pos) == 0 {
+			fmt.Println("need function key suffix")
+			os.Exit(2)
+		}
+		var keys []string
+		for _, k := range sortedKeys(prog.CS.Funcs) {
+			if strings.HasSuffix(k, pos[0]) && !prog.CS.Funcs[k].External {
+				keys = append(keys, k)
+			}
+		}
+		if len(keys) == 0 {
+			// no contract: verify with an empty nopanic-less contract to see the translation
+			for k := range prog.Funcs {
+				if strings.HasSuffix(k, pos[0]) {
+					keys = append(keys, k)
+					prog.CS.Funcs[k] = &FuncContract{Name: k, PkgPath: pkgOfKey(prog, k), With: map[string]TypeExpr{}, Pure: map[string]bool{}, Loops: map[int]*LoopSpec{}, Opts: map[string]string{}, NoPanic: true}
+				}
+			}
+		}
+		work := filepath.Join(os.TempDir(), fmt.Sprintf("gbv-work-%d", os.Getpid()))
+		bad := 0
+		for _, k := range keys {
+			fr := verifyFunc(prog, k, prog.CS.Funcs[k])
+			discharge(fr.Obls, solveOpts{timeoutS: to, workDir: work, seed: seed})
+			fmt.Printf("== %s: %d obligations, %d blocks, %d loops\n", k, len(fr.Obls), fr.Blocks, fr.Loops)
+			for _, e := range fr.Errs {
+				fmt.Println("  ERROR:", e)
+				bad++
+			}
+			for _, w := range fr.Warns {
+				fmt.Println("  warn:", w)
+			}
+			if *verbose {
+				for _, n := range fr.Notes {
+					fmt.Println("  note:", n)
+				}
+			}
+			for _, o := range fr.Obls {
+				ok := o.Status == "unsat" && !o.ExpectSat || o.ExpectSat && o.Status != "unsat"
+				mark := "ok  "
+				if !ok {
+					mark = "FAIL"
+					bad++
+				}
+				if !ok || *verbose {
+					fmt.Printf("  %s %-8s %6.2fs %-7s %s  (%s)\n", mark, o.Status, o.Seconds, o.Solver, o.Name, o.Pos)
+				}
+			}
+		}
+		if !*dump {
+			os.RemoveAll(work)
+		} else {
+			fmt.Println("SMT files in", work)
+		}
+		if bad > 0 {
+			os.Exit(1)
+		}
+	case "check":
+		if len(pos) == 0 {
+			fmt.Println("need property id")
+			os.Exit(2)
+		}
+		os.Exit(checkProperty(prog, pos[0], *tier, seed, to, loadS, *dump, *verbose))
+	default:
+		fmt.Println("unknown command", cmd)
+		os.Exit(2)
+	}
+}
+
+func pkgOfKey(prog *Program, key string) string {
+	if fn := prog.Funcs[key]; fn != nil && fn.Pkg != nil {
+		return fn.Pkg.Pkg.Path()
+	}
+	return ""
+}
+
+func contractFilesExternal() []string {
+	fs, _ := filepath.Glob(filepath.Join(verifDir, "contracts", "*.contracts"))
+	sort.Strings(fs)
+	return fs
+}
+
+var _ = ssa.GlobalDebug
